@@ -547,6 +547,13 @@ def rules(rep, m):
         r5.ok()
 
 
+    # R-C07-6 ------------------------------------------------------------
+    r6s = rep.rule("R-C07-6", "the sum over the holders' amounts visits every holder: the scan in sum_holder_items covers exactly "
+                   "the slots 1 .. heap_count (shared with R-C02-9)", floor=1)
+    from . import siftrules
+    siftrules.check_scans(rep, r6s, m, only={"sum_holder_items"})
+
+
 def run(tier="quick"):
     models = common.load_models(tier)
     rep = Report(PID, tier, models[0])
